@@ -7,11 +7,18 @@ import (
 	"bytes"
 	"compress/gzip"
 	"context"
+	"crypto/tls"
+	"crypto/x509"
 	"encoding/json"
+	"encoding/pem"
 	"fmt"
 	"io/ioutil"
+	"log"
+	"math"
 	"net/http"
 	"net/http/httptest"
+	"os"
+	"path/filepath"
 	"reflect"
 	"strconv"
 	"strings"
@@ -43,6 +50,7 @@ type peer struct {
 	gotMethod string
 	served    int
 	gzipped   int
+	tlsCerts  int // client certificates presented on the last TLS request
 }
 
 var writeModes = []string{"one-write", "content-length-header", "two-writes-with-flush", "1k-chunks-flushed", "gzip-if-accepted"}
@@ -52,6 +60,10 @@ func (p *peer) ServeHTTP(w http.ResponseWriter, r *http.Request) {
 	p.mu.Lock()
 	p.got, p.gotCT, p.gotAuth, p.gotAE, p.gotMethod = b, r.Header.Get("Content-Type"), r.Header.Get("Authorization"), r.Header.Get("Accept-Encoding"), r.Method
 	p.served++
+	p.tlsCerts = 0
+	if r.TLS != nil {
+		p.tlsCerts = len(r.TLS.PeerCertificates)
+	}
 	status, body, mode := p.status, p.body, p.mode
 	p.mu.Unlock()
 	fl, _ := w.(http.Flusher)
@@ -94,6 +106,10 @@ func (p *peer) ServeHTTP(w http.ResponseWriter, r *http.Request) {
 			w.WriteHeader(status)
 			w.Write(body)
 		}
+	case "short-body": // fewer bytes than the Content-Length header announces: the connection is cut
+		w.Header().Set("Content-Length", strconv.Itoa(len(body)+10))
+		w.WriteHeader(status)
+		w.Write(body)
 	default: // one-write
 		w.WriteHeader(status)
 		w.Write(body)
@@ -337,11 +353,12 @@ func transportCases(s *cases.Set, r *cq.RNG, thorough bool) {
 	// SendAnswer: every answer payload type x every ResultCode, message specific fields populated
 	ansTypes := []interface{}{backend.JoinAnsPayload{}, backend.RejoinAnsPayload{}, backend.AppSKeyAnsPayload{}, backend.PRStartAnsPayload{}, backend.PRStopAnsPayload{},
 		backend.HRStartAnsPayload{}, backend.HRStopAnsPayload{}, backend.HomeNSAnsPayload{}, backend.ProfileAnsPayload{}, backend.XmitDataAnsPayload{}}
+	sendMode := "one-write"
 	sendAnswer := func(variant string, ans reflect.Value, status int) {
 		key := "client:SendAnswer:" + variant
 		want, _ := json.Marshal(ans.Interface())
 		rp := map[string]interface{}{"api": "backend.Client.SendAnswer against httptest.Server", "variant": variant, "status": status, "answer_excerpt": excerpt(want)}
-		p.prepare(status, []byte("peer text"), "one-write")
+		p.prepare(status, []byte("peer text"), sendMode)
 		ctx, cancel := context.WithTimeout(context.Background(), 10*time.Second)
 		cases.Begin(key, rp)
 		err := cl.SendAnswer(ctx, ans.Elem().Interface().(backend.Answer))
@@ -364,7 +381,7 @@ func transportCases(s *cases.Set, r *cq.RNG, thorough bool) {
 		if (err == nil) != (status == 200) {
 			fail(key+":error", fmt.Sprintf("status %d but SendAnswer returned error %v", status, err), rp)
 		}
-		if err != nil && !strings.Contains(err.Error(), "peer text") {
+		if err != nil && sendMode == "one-write" && !strings.Contains(err.Error(), "peer text") {
 			fail(key+":error", "the error of SendAnswer does not carry the body of the response: "+err.Error(), rp)
 		}
 	}
@@ -389,6 +406,114 @@ func transportCases(s *cases.Set, r *cq.RNG, thorough bool) {
 		padTo(big, 70000)
 		sendAnswer(t.Name()+":70000-bytes", big, 200)
 	}
+	// error paths: a response cut short, values json.Marshal refuses, a server address that is no URL
+	for _, m := range clientMethods() {
+		ans := newFilled(m.ans, fullF)
+		b, _ := json.Marshal(ans.Interface())
+		exchange(m, "response-cut-short", newFilled(m.req, randF), reflect.Value{}, 200, b, "short-body", false)
+	}
+	sendMode = "short-body"
+	sendAnswer("PRStopAnsPayload:status=500:response-cut-short", newFilled(reflect.TypeOf(backend.PRStopAnsPayload{}), fullF), 500)
+	sendMode = "one-write"
+	{
+		nan := math.NaN()
+		before := p.served
+		ctx, cancel := context.WithTimeout(context.Background(), 5*time.Second)
+		cases.Begin("client:XmitDataReq:unmarshalable-request", map[string]interface{}{"api": "backend.Client.XmitDataReq / SendAnswer with a NaN float"})
+		_, e1 := cl.XmitDataReq(ctx, backend.XmitDataReqPayload{ULMetaData: &backend.ULMetaData{ULFreq: &nan}})
+		e2 := cl.SendAnswer(ctx, backend.XmitDataAnsPayload{DLFreq1: &nan})
+		cases.End()
+		cancel()
+		if e1 == nil || e2 == nil || p.served != before {
+			fail("client:XmitDataReq:unmarshalable-request", fmt.Sprintf("a payload json.Marshal refuses (NaN) must be an error before anything is sent: %v / %v, requests sent: %d", e1, e2, p.served-before), map[string]interface{}{"api": "backend.Client with NaN"})
+		}
+		bad, _ := backend.NewClient(backend.ClientConfig{SenderID: peerSender, ReceiverID: peerReceiver, Server: "http://[::1"})
+		ctx, cancel = context.WithTimeout(context.Background(), 5*time.Second)
+		cases.Begin("client:HomeNSReq:server-is-no-url", map[string]interface{}{"api": "backend.Client with Server \"http://[::1\""})
+		_, e3 := bad.HomeNSReq(ctx, backend.HomeNSReqPayload{})
+		e4 := bad.SendAnswer(ctx, backend.HomeNSAnsPayload{})
+		cases.End()
+		cancel()
+		if e3 == nil || e4 == nil {
+			fail("client:HomeNSReq:server-is-no-url", "no error from a client whose server address is no URL", map[string]interface{}{"api": "backend.Client with a bad Server"})
+		}
+	}
+	// the same exchanges over TLS, with the CACert / TLSCert / TLSKey options of ClientConfig (another http.Transport)
+	plain := cl
+	func() {
+		tsrv := httptest.NewUnstartedServer(p)
+		tsrv.TLS = &tls.Config{ClientAuth: tls.RequestClientCert}
+		tsrv.Config.ErrorLog = log.New(ioutil.Discard, "", 0) // the refused handshake below is expected
+		tsrv.StartTLS()
+		defer tsrv.Close()
+		dir, err := ioutil.TempDir("", "c17tls")
+		if err != nil {
+			return
+		}
+		defer os.RemoveAll(dir)
+		caPath, certPath, keyPath := filepath.Join(dir, "ca.pem"), filepath.Join(dir, "cert.pem"), filepath.Join(dir, "key.pem")
+		certPEM := pem.EncodeToMemory(&pem.Block{Type: "CERTIFICATE", Bytes: tsrv.Certificate().Raw})
+		keyDER, kerr := x509.MarshalPKCS8PrivateKey(tsrv.TLS.Certificates[0].PrivateKey)
+		if kerr != nil {
+			return
+		}
+		ioutil.WriteFile(caPath, certPEM, 0o600)
+		ioutil.WriteFile(certPath, certPEM, 0o600)
+		ioutil.WriteFile(keyPath, pem.EncodeToMemory(&pem.Block{Type: "PRIVATE KEY", Bytes: keyDER}), 0o600)
+		ioutil.WriteFile(filepath.Join(dir, "garbage.pem"), []byte("not a certificate"), 0o600)
+		tcl, terr := backend.NewClient(backend.ClientConfig{SenderID: peerSender, ReceiverID: peerReceiver, Server: tsrv.URL, Authorization: peerAuth,
+			CACert: caPath, TLSCert: certPath, TLSKey: keyPath})
+		if terr != nil {
+			fail("client:new:tls", "backend.NewClient with CACert / TLSCert / TLSKey fails: "+terr.Error(), map[string]interface{}{"api": "backend.NewClient"})
+			return
+		}
+		cl = tcl
+		for _, m := range clientMethods() {
+			for i, n := range []int{0, 5000, 65536} {
+				req, ans := newFilled(m.req, randF), newFilled(m.ans, fullF)
+				resultOf(ans).ResultCode = resultCodes[(i*7)%len(resultCodes)]
+				b := padTo(ans, n)
+				mode := writeModes[(i+2)%len(writeModes)]
+				exchange(m, fmt.Sprintf("tls:size=%d:%s", len(b), mode), req, ans, 200, b, mode, false)
+				p.mu.Lock()
+				nc := p.tlsCerts
+				p.mu.Unlock()
+				if nc == 0 {
+					fail("client:"+m.name+":tls:client-certificate", "the client configured with TLSCert / TLSKey presented no certificate", map[string]interface{}{"api": "backend.NewClient TLSCert/TLSKey"})
+				}
+			}
+		}
+		for _, at := range ansTypes {
+			ans := newFilled(reflect.TypeOf(at), fullF)
+			resultOf(ans).ResultCode = backend.Other
+			sendAnswer("tls:"+reflect.TypeOf(at).Name()+":result=Other", ans, 200)
+		}
+		// options that cannot work are refused by NewClient
+		for name, cfg := range map[string]backend.ClientConfig{
+			"ca-file-missing":  {Server: tsrv.URL, CACert: filepath.Join(dir, "missing.pem")},
+			"ca-file-garbage":  {Server: tsrv.URL, CACert: filepath.Join(dir, "garbage.pem")},
+			"key-pair-garbage": {Server: tsrv.URL, TLSCert: filepath.Join(dir, "garbage.pem"), TLSKey: keyPath},
+			"key-file-missing": {Server: tsrv.URL, TLSCert: certPath, TLSKey: filepath.Join(dir, "missing.pem")},
+		} {
+			cases.Begin("client:new:"+name, map[string]interface{}{"api": "backend.NewClient", "variant": name})
+			_, e := backend.NewClient(cfg)
+			cases.End()
+			if e == nil {
+				fail("client:new:"+name, "backend.NewClient accepts TLS options that cannot be loaded", map[string]interface{}{"api": "backend.NewClient", "variant": name})
+			}
+		}
+		// a client that does not know the CA must not talk to the server
+		ucl, _ := backend.NewClient(backend.ClientConfig{SenderID: peerSender, ReceiverID: peerReceiver, Server: tsrv.URL})
+		ctx, cancel := context.WithTimeout(context.Background(), 5*time.Second)
+		cases.Begin("client:PRStopReq:tls:unknown-ca", map[string]interface{}{"api": "backend.Client.PRStopReq to a TLS server whose CA is not configured"})
+		_, e := ucl.PRStopReq(ctx, backend.PRStopReqPayload{})
+		cases.End()
+		cancel()
+		if e == nil {
+			fail("client:PRStopReq:tls:unknown-ca", "a client without the CA certificate completed a request to the TLS server", map[string]interface{}{"api": "backend.Client over TLS"})
+		}
+	}()
+	cl = plain
 	// the accessors of the client
 	cases.Begin("client:accessors", map[string]interface{}{"api": "backend.Client GetSenderID/GetReceiverID/IsAsync/GetRandomTransactionID/HandleAnswer"})
 	sid, rid, async := cl.GetSenderID(), cl.GetReceiverID(), cl.IsAsync()
